@@ -12,6 +12,8 @@ import Abmarl.Model.DoneDriver
 import Abmarl.Model.PlacementDriver
 import Abmarl.Model.SpacesDriver
 import Abmarl.Model.AttacksDriver
+import Abmarl.Model.SuperDriver
+import Abmarl.Model.CommDriver
 /-! Line-protocol driver: one request per line on stdin, one reply per line on stdout. -/
 open Abmarl
 
@@ -43,6 +45,9 @@ def dispatch (line : String) : String :=
       | "ravel" | "unravel" | "ravelspace" | "checkspace" | "flatten" | "unflatten" | "flatspace" =>
         SpacesDriver.handle op args
       | "gattack" => AttacksDriver.handle args
+      | "super" => SuperDriver.handle args
+      | "supermgr" => SuperDriver.handleMgr args
+      | "comm" => CommDriver.handle args
       | "ping" => some (.list (.atom "pong" :: args))
       | _ => none
     match r with
